@@ -518,10 +518,30 @@ pub fn run(a: &Args) -> Batch {
         nkyg += 1;
         cases.push(Case { term, post: String::new(), json: json!({"kind": "KyGananciasSolares.txt", "file": label, "parser": (["accepted", "rejected", "crashed"][cls])}), nontrivial: true });
     }
-    let tbl_stats = crate::p18b::tbl_files(&mut rt, nt, &a.out, &mut impl_findings);
+    let mut tbl_texts = vec![];
+    let tbl_stats = crate::p18b::tbl_files(&mut rt, nt, &a.out, &mut impl_findings, &mut tbl_texts);
+    let mut tbl_cases: Vec<(String, String)> = crate::p19::files().into_iter().filter(|f| f.kind == 3).map(|f| (format!("shipped {}", f.name), f.text)).collect();
+    let ntb = if a.thorough { tbl_texts.len() } else { 40.min(tbl_texts.len()) };
+    for (i, t) in tbl_texts.iter().take(ntb).enumerate() {
+        tbl_cases.push((format!("printed {}", i), t.clone()));
+        if i % 2 == 0 {
+            let nl = t.split_inclusive('\n').count().max(1);
+            if let Some(d) = crate::p19::damage(t, rt.below(nl), [0usize, 1, 4, 5, 6][rt.below(5)], rt.below(10)) {
+                tbl_cases.push((format!("printed {} with one damaged line", i), d));
+            }
+        }
+    }
+    let mut ntbl = 0usize;
+    let scratch = format!("{}/c18-case.tbl", a.out);
+    for (label, t) in &tbl_cases {
+        let (term, cls) = crate::p18b::tbl_case(t, &scratch);
+        ntbl += 1;
+        cases.push(Case { term, post: String::new(), json: json!({"kind": "NewBDL_O.tbl", "file": label, "parser": (["accepted", "rejected", "crashed"][cls])}), nontrivial: true });
+    }
+    let _ = std::fs::remove_file(&scratch);
     let building_stats = crate::p18c::buildings(&mut rt, nt, &mut impl_findings);
     Batch {
-        imports: "From Coq Require Import ZArith NArith QArith List String.\nFrom CTE Require Import Base.Num Model.Bdl Model.BdlCase Model.Kyg Model.KygCase.\nLocal Open Scope string_scope.".into(),
+        imports: "From Coq Require Import ZArith NArith QArith List String.\nFrom CTE Require Import Base.Num Model.Bdl Model.BdlCase Model.Kyg Model.KygCase Model.Tbl Model.TblCase Model.C18Case.\nLocal Open Scope string_scope.".into(),
         case_ty: "c18any".into(),
         agree: "agree_C18any".into(),
         cases,
@@ -529,6 +549,6 @@ pub fn run(a: &Args) -> Batch {
         rule: "real files = BDL text of the shipped .ctehexml projects and legacy .cte files (all in the thorough tier, a seeded slice of 8 of those under 150 kB in the quick tier), as shipped and re-printed from their parsed blocks in another layout (indentation, spacing around '=', CRLF, comment lines, numbers re-spelled with exponents or an explicit sign), where the typed elements (bdl::Data, compared through Debug) must also be identical; printed documents = 1..40 blocks of any of the 53 block types with 0..8 attributes: numbers (integers, decimals, signs, leading/trailing dot, lower and upper case exponents, f32 extremes), bare words, quoted strings (empty, with '=', '$', parentheses, numeric content), one-line and multi-line lists (closing parenthesis on the last item or on its own line), under random indentation, trailing blanks, blank and comment lines, CRLF, and the legacy LIDER preamble; names are identifiers that are not numeric literals; non-trivial = some block has attributes. Besides the Coq cases, three differential tests in Rust (no theorem): MATERIAL / GLASS-TYPE / NAME-FRAME / BUILDING-SHADE / WINDOW blocks with random values, optional attributes (legacy defaults) and attribute order through bdl::Data::new; whole small buildings (FLOOR, POLYGON, SPACE, walls of every kind and location, WINDOW, LAYERS, CONSTRUCTION) with optional attributes left out; KyGananciasSolares.txt in both column layouts with either decimal separator; NewBDL_O.tbl files - every written value must come back bit-exactly".into(),
         stats: json!({"real_files": nreal, "real_files_reprinted": nreprinted, "real_files_typed_elements_compared": ntyped_real, "printed_documents": a.n, "printed_blocks": nblocks, "printed_attributes": nattrs,
                        "attribute_kinds": {"number": kinds[0], "word": kinds[1], "quoted": kinds[2], "list": kinds[3]},
-                       "typed_elements": typed_stats, "kyg": kyg_stats, "kyg_files_in_coq": nkyg, "tbl": tbl_stats, "buildings": building_stats}),
+                       "typed_elements": typed_stats, "kyg": kyg_stats, "kyg_files_in_coq": nkyg, "tbl": tbl_stats, "tbl_files_in_coq": ntbl, "buildings": building_stats}),
     }
 }
